@@ -386,6 +386,7 @@ func init() {
 	}
 	registerFmt()
 	registerJSON()
+	registerRegexp()
 	registerReflect()
 	registerMisc()
 }
